@@ -41,8 +41,10 @@ func (w *waitGroup[T]) Add(elements ...T) {
 
 	// then add the elements (and correct the counter if the elements are already present)
 	for _, element := range elements {
-		if !w.pendingElements.Add(element) {
-			w.pendingElementsCounter.Add(-1)
+		// if the correction drops the counter to 0, then a concurrent Done removed the last pending element while the
+		// counter was still increased by us (so it could not see the counter reaching 0) and we have to trigger instead
+		if !w.pendingElements.Add(element) && w.pendingElementsCounter.Add(-1) == 0 {
+			w.Trigger()
 		}
 	}
 }
